@@ -669,3 +669,6 @@ PROPS["C15"]["claim"] += (" SOURCE TIES (Proofs/C15Source.lean, regenerated fact
 PROPS["C10"]["proofs"] = PROPS["C10"]["proofs"] + ["Bmc.Proofs.EndToEnd.SessionC10"]
 PROPS["C10"]["claim"] += (" generated_SendCommand_busy_then_final (Proofs/EndToEnd/SessionC10.lean): in a session, any number of conforming node-busy / timeout answers then a conforming final one — SendCommand AS TRANSLATED "
                           "transmits the complete datagram for this command once per answer (next sequence number and IV draw each time) and returns the final code.")
+PROPS["C17"]["proofs"] = PROPS["C17"]["proofs"] + ["Bmc.Proofs.EndToEnd.ReceiverC17"]
+PROPS["C17"]["claim"] += (" generated_*_ignores_receiver (Proofs/EndToEnd/ReceiverC17.lean; 25 decoders): for EVERY input (valid, truncated, garbage, any capacity) and ANY two previous contents of the receiver struct, "
+                          "DecodeFromBytes AS TRANSLATED gives the same outcome and the same decoded value.")
